@@ -57,6 +57,70 @@ def unhx(s):
 
 
 # --------------------------------------------------------------------------------------------
+# structural tie of the init-once model to myth_init.c (what no test can see: the atomicity of the
+# election).  The shape the transition system transcribes must still be there, else the tie is
+# reported as broken (never guessed).
+# --------------------------------------------------------------------------------------------
+
+def _norm(src):
+    src = re.sub(r"/\*.*?\*/", "", src, flags=re.S)
+    src = re.sub(r"//[^\n]*", "", src)
+    src = re.sub(r"MYTH_VERIF_(POINT|SPIN)\s*\((?:[^()]|\([^()]*\))*\)\s*;", "", src)
+    return re.sub(r"\s+", "", src)
+
+
+def _body(norm, header):
+    i = norm.find(header)
+    if i < 0:
+        return None
+    j = norm.find("{", i)
+    depth, k = 0, j
+    while k < len(norm):
+        if norm[k] == "{":
+            depth += 1
+        elif norm[k] == "}":
+            depth -= 1
+            if depth == 0:
+                return norm[j:k + 1]
+        k += 1
+    return None
+
+
+INIT_SHAPE = {
+    "intmyth_init_once_ctl_try_set(volatileint*var,intold,intnew)":
+        "{return__sync_bool_compare_and_swap(var,old,new);}",
+    "voidmyth_init_once_ctl_wait(volatileint*var,intval)":
+        "{while(*var!=val){real_sched_yield();}}",
+    "intmyth_init_ex_body(constmyth_globalattr_t*attr)":
+        "{if(g_myth_init_state==myth_init_state_initialized){return1;}"
+        "if(!myth_init_once_ctl_try_set(&g_myth_init_state,myth_init_state_uninit,myth_init_state_initializing))"
+        "{myth_init_once_ctl_wait(&g_myth_init_state,myth_init_state_initialized);return1;}"
+        "assert(g_myth_init_state==myth_init_state_initializing);myth_init_ex_body_really(attr);"
+        "g_myth_init_state=myth_init_state_initialized;return1;}",
+}
+
+
+def check_init_shape():
+    """None, or a text saying which function of myth_init.c no longer has the transcribed shape"""
+    try:
+        norm = _norm(open(os.path.join(common.REPO, "src", "myth_init.c")).read())
+    except OSError as e:
+        return "cannot read myth_init.c: %s" % e
+    for header, want in INIT_SHAPE.items():
+        got = _body(norm, header)
+        if got is None:
+            return "myth_init.c: function `%s` not found" % header
+        if got != want:
+            return "myth_init.c: `%s` no longer has the shape the init-once model transcribes (CAS-elected initialiser): %s" % (header, got[:300])
+    fb = _body(norm, "intmyth_fini_body()")
+    if fb is None or not fb.startswith("{if(g_myth_init_state==myth_init_state_uninit){return1;}myth_init_once_ctl_wait(&g_myth_init_state,myth_init_state_initialized);") \
+            or not fb.endswith("myth_fini_body_really();g_myth_init_state=myth_init_state_uninit;return0;}") \
+            or "myth_startpoint_exit_ex_body(0);" not in fb or "real_pthread_join(g_envs[i].worker,NULL);" not in fb:
+        return "myth_init.c: myth_fini_body no longer has the transcribed shape: %s" % (fb or "")[:300]
+    return None
+
+
+# --------------------------------------------------------------------------------------------
 # reference readings of the strings (python; used by the oracle only)
 # --------------------------------------------------------------------------------------------
 
@@ -613,7 +677,8 @@ def run_conc(exe, ops, timeout=60):
     rc, out, err = common.sh([exe], inp="\n".join(ops) + "\n", timeout=timeout, env=env)
     if rc == 3:
         raise RuntimeError("init_conc controller: " + err[-300:])
-    status = None if rc == 0 else ("timeout" if rc == -9 else "exit status %d: %s" % (rc, " ".join(err.split()[:30])))
+    status = None if rc == 0 else ("timeout" if rc == -9 else "hang: concurrent callers of the initialisation never returned" if rc == 4
+                                   else "exit status %d: %s" % (rc, " ".join(err.split()[:30])))
     return out.splitlines(), status
 
 
@@ -759,6 +824,9 @@ def run(res):
     vals, err = run_consts()
     if err:
         res.brk("translator", err)
+    shape = check_init_shape()
+    if shape:
+        res.brk("translator", shape)
     common.prove(res, drivers=["env"])
     phases["translate+prove"] = round(time.time() - t0, 1)
     t1 = time.time()
@@ -784,7 +852,7 @@ def run(res):
     ncorpus = len(cases)
 
     # unit level: one long op list, cut into chunks so that a crash costs one chunk
-    nunit = 6000 if quick else 60000
+    nunit = 4000 if quick else 60000
     ugroups, ukinds = gen_unit_ops(rng, nunit)
     chunk = 500
     uops = [o for g in ugroups for o in g]
@@ -793,7 +861,7 @@ def run(res):
         cases.append(("unit", {}, [o for g in ugroups[i:i + chunk] for o in g], "unit"))
         nchunks += 1
     # malformed environments at process level
-    for i in range(42 if quick else 560):
+    for i in range(35 if quick else 560):
         e, o = gen_malformed_env(rng, i)
         cases.append(("proc", e, o, "malformed-env"))
     # worker counts via attribute and via environment
@@ -806,11 +874,11 @@ def run(res):
     cases.append(("proc", {"MYTH_WORKER_NUM": b"3"}, ["ncpu %d" % NCPU, "init", "ranks 9", "fini"], "count-env"))
     cases.append(("proc", {}, ["ncpu %d" % NCPU, "setglobal 5", "implicit", "ranks 9", "fini"], "count-attr"))
     # histories
-    for i in range(15 if quick else 200):
+    for i in range(12 if quick else 200):
         e, o = gen_history(rng, big=(i % 5 == 4))
         cases.append(("proc", e, o, "history"))
     # concurrent initialisers
-    for i in range(40 if quick else 500):
+    for i in range(30 if quick else 500):
         cases.append(("conc", {}, gen_conc(rng), "conc"))
 
     seen = set()
